@@ -155,6 +155,17 @@ func init() {
 		"sync.NewCond": func(w *Worker, _ *ssa.Function, _ []Value, _ ssa.CallInstruction) Value {
 			return OpaqueV{"sync.Cond"}
 		},
+		"(*strings.Builder).copyCheck": nop,
+		"internal/abi.NoEscape": func(w *Worker, _ *ssa.Function, args []Value, _ ssa.CallInstruction) Value { return args[0] },
+		"internal/abi.Escape":   func(w *Worker, _ *ssa.Function, args []Value, _ ssa.CallInstruction) Value { return args[0] },
+		"internal/bytealg.MakeNoZero": func(w *Worker, _ *ssa.Function, args []Value, _ ssa.CallInstruction) Value {
+			n := w.concInt(args[0].(*Term), "MakeNoZero")
+			s := make([]Value, n)
+			for i := range s {
+				s[i] = w.B.Const(0, 8)
+			}
+			return SliceV{s: s}
+		},
 		"runtime.GC":         nop,
 		"runtime.Gosched":    nop,
 		"runtime.KeepAlive":  nop,
